@@ -98,7 +98,7 @@ pub fn node_text(j: usize, family: u8) -> String {
 }
 
 pub fn peer_text(w: &World, n: usize) -> String {
-    addr_text(w.nodes[n].addr)
+    addr_text(w.reach_addr(n))
 }
 
 pub fn panic_violation(w: &World, step: &Step, prop: &'static str) -> Option<Violation> {
@@ -182,10 +182,30 @@ pub fn ipv4_of(i: usize) -> Ipv4Addr {
 }
 
 /// Closes a run: moves the recorded data out of the world
+/// Creates the world of a run (rendering and step cap from the run context)
+pub fn new_world(seed: u64, ch: super::chooser::Chooser, ctx: &super::runner::RunCtx) -> World {
+    let mut w = World::new(seed, ch);
+    if ctx.render {
+        w.render = Some(vec![]);
+    }
+    if let Some(cap) = ctx.step_cap {
+        w.max_steps = w.max_steps.min(cap);
+    }
+    w
+}
+
 pub fn finish(mut w: World, res: Result<(), Violation>, nontrivial: bool, states: Vec<u64>) -> super::runner::RunOut {
     let trace = std::mem::take(&mut w.ch.trace);
     let overrun = w.ch.overrun;
+    // a run that hit the step cap (handshake repeat storms) was cut short: its liveness oracles saw a
+    // frozen clock, so nothing it reports is used; the number of such runs is part of the evidence
+    let truncated = w.steps >= w.max_steps;
+    if truncated {
+        w.count("run_truncated_by_step_cap");
+    }
+    let res = if truncated { Ok(()) } else { res };
     super::runner::RunOut {
+        steps: w.steps,
         violation: res.err(),
         log_hash: w.log_hash,
         sig: w.sig_hash,
